@@ -1,7 +1,7 @@
 (** C05: pointing angles outside the usual ranges.  [to_sigproc] stores [Angle.deg]: a linear map of the number held by
     the Angle, whatever its sign or size -- nothing wraps at a full turn, clips at the horizon or drops a sign.
     Exact rationals; [r] = degrees per radian, any positive number. *)
-From Coq Require Import ZArith List Bool QArith Lqa Psatz.
+From Coq Require Import ZArith List Bool QArith Lqa Lia.
 Require Import SPP.Gen.C05Header SPP.Model.C05_HeaderCodec SPP.Model.C05_RaDec.
 Open Scope Q_scope.
 
